@@ -25,7 +25,9 @@ Notation snapshot := (list (string * dump * Z)) (only parsing).   (* key, dump, 
 
 Inductive cstep :=
 | ST (t : N) (snap : option (list (string * dump * Z)))
-| SC (c : cmd) (r : reply) (snap : option (list (string * dump * Z))).
+| SC (c : cmd) (r : reply) (snap : option (list (string * dump * Z)))
+| SN (c : cmd) (r : reply).      (* a command run inside MULTI..EXEC: its reply is the matching element of
+                                   EXEC's array; the keyspace is only probed after the whole block *)
 
 (* --- sorting (insertion sort on byte strings / pairs keyed by byte strings) *)
 Fixpoint ins_b {A} (key : A → list N) (x : A) (l : list A) : list A :=
@@ -94,6 +96,9 @@ Fixpoint steps_ok (s : gmap (list N) (value * option N)) (now : N)
       let '(s', mr) := exec AsBuilt s now c in
       reply_eqb (canon c mr) (canon c rep) && snap_opt_ok s' now last o
       && steps_ok s' now (match o with Some sn => sn | None => last end) r
+  | SN c rep :: r =>
+      let '(s', mr) := exec AsBuilt s now c in
+      reply_eqb (canon c mr) (canon c rep) && steps_ok s' now last r
   end.
 
 Definition check (l : list cstep) : bool := steps_ok ∅ 0%N [] l.
@@ -115,5 +120,9 @@ Fixpoint first_bad (s : gmap (list N) (value * option N)) (now : N)
       if reply_eqb (canon c mr) (canon c rep) && snap_opt_ok s' now last o
       then first_bad s' now (match o with Some sn => sn | None => last end) r (i + 1)
       else Some (i, Some (canon c mr), snap_opt_ok s' now last o)
+  | SN c rep :: r =>
+      let '(s', mr) := exec AsBuilt s now c in
+      if reply_eqb (canon c mr) (canon c rep) then first_bad s' now last r (i + 1)
+      else Some (i, Some (canon c mr), true)
   end.
 Definition explain (l : list cstep) := first_bad ∅ 0%N [] l 0%N.
